@@ -66,6 +66,7 @@ strided = lambda k: n * k
 
 
 def s_plu(S, MIN):
+    S.tie_free = True      # which of several rows with the same largest magnitude becomes the pivot is not part of the property
     S.set('sign', 0, sp.Integer(1))
     with S.loop('i', 0, n) as i:
         S.set('p', i, i)
@@ -360,7 +361,7 @@ def check(ctx, mod, fn, rule, sym, spec, real):
                 rep.ok('P1', sym, 'no pivot cell is square-rooted or divided by ahead of its failure test')
         S = Spec(elem=real)
         spec(S, rmin(real))
-        cnt = afftree.compare(a, impl, S.tree())
+        cnt = afftree.compare(a, impl, S.tree(), tie_free=getattr(S, 'tie_free', False))
         rep.ok(rule, sym, 'equals the reference algorithm: %d statements/folds/guards matched for symbolic n' % cnt,
                sample={'tree': scev.show(impl)[:12]})
     except Diff as d:
